@@ -19,7 +19,11 @@ Record run := mkrun { rmode : mode; rok : bool; rdump : dump }.
 Inductive case :=
 | CCompile (file : bytes) (table : list (bytes * option (list kv))) (nlines : N) (acc feat : list kv) (ncpu : nat) (runs : list run)
 | CBuckets (keys : list bytes) (minsz : N) (nb : nat) (panic : bool) (sorted : list bytes) (bks : list (N * N))
-| CVerdict (vs : list bool).
+| CVerdict (vs : list bool)
+(* a file with one very long line: pre ++ (count times the byte fill) ++ post, built here; per
+   setting: did the compiler succeed, and (when it did) was its dump the codec's output (compared
+   by the harness: the values are too large to be worth a literal) *)
+| CLong (pre : bytes) (fill count : N) (post : bytes) (runs : list (bool * bool)).
 
 Fixpoint dlookup (d : dump) (k : bytes) : list bytes :=
   match d with [] => [] | (k', vs) :: r => if bytes_eqb k' k then vs else dlookup r k end.
@@ -89,10 +93,20 @@ Fixpoint bks_eqb (a b : list (N * N)) : bool :=
   | _, _ => false
   end.
 
+Definition long_file (pre : bytes) (fill count : N) (post : bytes) : bytes :=
+  pre ++ N.iter count (cons fill) [] ++ post.
+
 (* correspondence: the model computes what the implementation did *)
 Definition model_ok (c : case) : bool :=
   match c with
+  | CLong pre fill count post runs =>
+      (* the model: compile_file_* return Err E_READER iff reader_fails (Model/LineReader.v); when the
+         reader does not fail the content is judged by the harness's comparison *)
+      let fails := reader_fails (long_file pre fill count post) in
+      forallb (fun r => if fails then negb (fst r) else fst r && snd r) runs
   | CCompile file table nlines acc feat ncpu runs =>
+      if reader_fails file then forallb (fun r => negb (rok r)) runs
+      else
       match lines_of file table with
       | None => false
       | Some lines => (nlen lines =? nlines) && forallb (model_run_ok lines acc feat ncpu) runs
@@ -129,8 +143,19 @@ Definition spec_run_ok (ok : bool) (recs : list kv) (r : run) : bool :=
 (* the property itself, on the implementation's observations: every dump equals, as a
    map key -> multiset of values, what the line-by-line codec emitted; a rejected line
    fails every setting *)
+(* the longest run of bytes between newlines, read independently of the model: (current, best) *)
+Definition longest_line (data : bytes) : N :=
+  let '(cur, best) := fold_left (fun st b => let '(cur, best) := st in
+                                   if b =? 10 then (0, N.max best cur) else (cur + 1, best)) data (0, 0) in
+  N.max best cur.
+
 Definition spec_ok (c : case) : bool :=
   match c with
+  | CLong pre fill count post runs =>
+      (* bufio.Scanner gives up on a line of 64 KiB or more: the compilation must fail, nothing may
+         be compiled from the lines before it; a shorter line must be compiled like any other *)
+      let fails := 65536 <=? longest_line (long_file pre fill count post) in
+      forallb (fun r => if fails then negb (fst r) else fst r && snd r) runs
   | CCompile file table _ acc feat _ runs =>
       match lines_of file table with
       | None => false
@@ -162,4 +187,6 @@ Definition model_out (c : case) :=
                      end) runs, @Ok (list (N * N)) [])
   | CBuckets keys minsz nb panic sorted bks => ([], create_buckets minsz nb sorted)
   | CVerdict _ => ([], Ok [])
+  | CLong pre fill count post _ =>
+      ([], if reader_fails (long_file pre fill count post) then Err E_READER else Ok [])
   end.
